@@ -357,7 +357,14 @@ impl<'t, 'c> Gen<'t, 'c> {
             if self.feat.aliases && !self.prog.types.is_empty() && self.t.chance(1, 3) {
                 let ti = self.t.pick(self.prog.types.len());
                 self.prog.aliases.push((ALIAS_NAMES[0].to_string(), ti));
+                self.prog.alias_via.push(None);
                 self.mark("alias");
+                // an alias of the alias: constructors may go through the whole chain
+                if self.t.chance(1, 2) {
+                    self.prog.aliases.push((ALIAS_NAMES[1].to_string(), ti));
+                    self.prog.alias_via.push(Some(0));
+                    self.mark("alias_chain");
+                }
             }
         }
         if self.feat.env {
@@ -1054,12 +1061,11 @@ impl<'t, 'c> Gen<'t, 'c> {
             let v = self.gen_data(&cdef.fields[fi].1, depth + 1, locals_upto);
             fields.push((fi, v));
         }
-        let alias = self
-            .prog
-            .aliases
-            .iter()
-            .position(|(_, t)| *t == ti)
-            .filter(|_| self.t.chance(1, 3));
+        let candidates: Vec<usize> = (0..self.prog.aliases.len()).filter(|a| self.prog.aliases[*a].1 == ti).collect();
+        let alias = if !candidates.is_empty() && self.t.chance(1, 3) { Some(candidates[self.t.pick(candidates.len())]) } else { None };
+        if alias.map(|a| self.prog.alias_via.get(a).copied().flatten().is_some()).unwrap_or(false) {
+            self.mark("alias_chain_constructor");
+        }
         if alias.is_some() {
             self.mark("alias_constructor");
         }
@@ -1174,7 +1180,15 @@ impl<'t, 'c> Gen<'t, 'c> {
     }
 
     fn gen_tx(&mut self, txi: usize) -> (GTx, Vec<Val>, Vec<Vec<GUtxo>>, Vec<GUtxo>) {
-        self.cur = GTx { name: TX_NAMES[txi].to_string(), ..GTx::default() };
+        // transaction names are kept as written (only parameter, party and input names are lower-cased by
+        // the language), so two transactions may differ in case alone
+        let tx_name = if txi > 0 && self.feat.mixed_case && self.t.chance(1, 6) {
+            self.mark("tx_names_differ_in_case_only");
+            case_variant(TX_NAMES[0], txi)
+        } else {
+            TX_NAMES[txi].to_string()
+        };
+        self.cur = GTx { name: tx_name, ..GTx::default() };
         self.input_datum.clear();
         self.input_count.clear();
         self.seen_refs.clear();
@@ -1349,6 +1363,15 @@ impl<'t, 'c> Gen<'t, 'c> {
             let n = self.t.weighted(&[7, 2, 1]);
             for _ in 0..n {
                 self.mark("burn");
+                // one time in four the burn repeats the amount of an unredeemed mint block: that policy
+                // cancels out of the mint field, and the redeemer indices of the others shift accordingly
+                let plain_mints: Vec<usize> = (0..self.cur.mints.len()).filter(|i| self.cur.mints[*i].redeemer.is_none()).collect();
+                if !plain_mints.is_empty() && self.t.chance(1, 4) {
+                    self.mark("burn_cancels_a_mint_block");
+                    let amount = self.cur.mints[plain_mints[self.t.pick(plain_mints.len())]].amount.clone();
+                    self.cur.burns.push(GMint { amount, redeemer: None });
+                    continue;
+                }
                 let amount = self.gen_token_term(nl);
                 let redeemer = if self.feat.redeemers && self.t.flag() { Some(self.gen_plain_any_data(nl)) } else { None };
                 self.cur.burns.push(GMint { amount, redeemer });
